@@ -317,8 +317,12 @@ package lexer
 //@   ensures deref(i) >= old(deref(i)) && deref(i) <= len(l.chunk) && l.chunk == old(l.chunk)
 //@ end
 
+// C03: a short string may not contain an unescaped line break - LF, CR (a lone one too) - : the scan goes round again only past a
+// byte that is not one (seed C03-lone-cr-inside-a-short-string-accepted)
 //@ func (*Lexer).scanShortString
 //@   sweep C01
+//@   props C03
+//@   loop 0 step [C03,unescaped-line-break-never-continues-a-short-string] !nlb(ch)
 //@   loop 0 invariant [C01] l.line >= old(l.line) && l.nowToken == old(l.nowToken)
 //@   ensures[C01,keeps-now-token] l.nowToken == old(l.nowToken)
 //@   ensures[C01,line-only-grows] l.line >= old(l.line)
